@@ -54,6 +54,16 @@ class PyList:
         self.fresh = fresh
 
 
+class CondList:
+    """A list built by conditional appends on merged paths: entries (presence condition term, value), in order.
+    Denotes the concatenation of `[value] if condition else []`."""
+    __slots__ = ("entries", "term")
+
+    def __init__(self, entries):
+        self.entries = list(entries)
+        self.term = None
+
+
 class SDict:
     """A dict whose keys are known strings: key -> (presence condition term, value).  Insertion order = dict order."""
     __slots__ = ("entries", "term")
